@@ -23,9 +23,9 @@ use quiver_compiler::ast::*;
 use serde_json::json;
 
 /// Generated and mutated inputs never nest parentheses deeper than this. Since /repo 33df1c7 the
-/// parenthesised type forms are parsed once per level (stream `deep-type-parens` nests them 30-60
-/// deep); what is still exponential is nesting in the RECEIVE position of `(@t -> t)` (known finding,
-/// exhibited by `receive_nest_witness`), which the generator can produce, hence a cap.
+/// parenthesised type forms are parsed once per level, since 1d93429 also the receive position of
+/// `(@t -> t)` (stream `deep-type-parens` nests all of them 30-60 deep). The cap only bounds the
+/// cost of the MODEL's old-grammar side and of shrinking.
 const MAX_PAREN_DEPTH: usize = 8;
 
 fn hx(s: &str) -> String {
@@ -713,7 +713,8 @@ fn mutate(r: &mut Rng, text: &str) -> (String, String) {
     (kind.to_string(), s)
 }
 
-/// Known finding (fifth exponential form, not repaired by 33df1c7): nesting in the RECEIVE position
+/// Fifth exponential form (repaired by /repo 1d93429; kept as a regression witness: with the repair
+/// it counts `types:receive-nest-not-exponential`): nesting in the RECEIVE position
 /// of a parenthesised process type, `(@(@(@'a -> 'r) -> 'r) -> 'r)`. The partial-type attempt reads
 /// the receive type through `type_definition`, fails at `->`, and `paren_process_type` reads it
 /// again: two parses per level. Exhibited by timing two depths four levels apart (factor 16).
@@ -781,14 +782,17 @@ pub fn part_types(ev: &mut Ev, model: &mut Model, opts: &Opts) {
 
     // deep nests of the four parenthesised type forms that 33df1c7 made linear: must answer at once
     for (di, depth) in [30usize, 45, 60].into_iter().enumerate() {
-        for form in 0..5 {
+        for form in 0..7 {
             let mut t = String::from("'a");
             for level in 0..depth {
-                t = match if form == 4 { (level + di) % 4 } else { form } {
+                t = match if form == 6 { (level + di) % 6 } else { form } {
                     0 => format!("({t})"),
                     1 => format!("(#{t} -> 'b)"),
                     2 => format!("({t} | 'c)"),
-                    _ => format!("({t}, y: 'b)"),
+                    3 => format!("({t}, y: 'b)"),
+                    // the receive and the return position of a parenthesised process type (1d93429)
+                    4 => format!("(@{t} -> 'r)"),
+                    _ => format!("(@-> {t})"),
                 };
             }
             let src = format!("'t = {t}");
@@ -806,7 +810,22 @@ pub fn part_types(ev: &mut Ev, model: &mut Model, opts: &Opts) {
                 );
             } else {
                 ev.hit("types:deep-type-parens-fast");
-                check_text(ev, model, "deep-type-parens", &src);
+                // the MODEL still has the separate `(@t -> t)` alternative (the equality with 1d93429
+                // is not proved), so it is exponential in receive-position nesting: those two forms
+                // are checked on the implementation only (accepted, fast, and format ∘ parse stable)
+                if form == 4 || form == 6 {
+                    let again = catch(|| quiver_compiler::parse(&src).map(|p| quiver_compiler::format_program(&p, &src))).ok().and_then(|r| r.ok());
+                    let first = |i: &Impl| match i {
+                        Impl::Ok { first_alias: Some(a), statements: 1 } => Some(a.clone()),
+                        _ => None,
+                    };
+                    let stable = again.as_ref().map(|t| first(&run_impl(t)).is_some() && first(&run_impl(t)) == first(&imp)).unwrap_or(false);
+                    if !stable {
+                        ev.violation("types kind=deep-receive-nest-not-stable", &format!("format then parse of a {depth}-deep receive nest changes the alias"), json!({"source": src}), true);
+                    }
+                } else {
+                    check_text(ev, model, "deep-type-parens", &src);
+                }
             }
         }
     }
